@@ -275,6 +275,8 @@ def body_history(ctx, det, N, cfg):
         for i in range(N):
             pre_state = d.drift_state
             total, since = drv.counters()
+            if hasattr(drv, "pre_update"):
+                drv.pre_update(d)
             try:
                 drv.step(i)
             except ValueError as e:
@@ -499,11 +501,11 @@ def jobs(tier):
                        {"length": 4, "first_ops": first, "explicit_len": True}, opts={"validate": 1}))
     for mb in (1, 2):
         out.append(Job(f"adwinacc-hist-mb{mb}", "checks.c01:body_history",
-                       {"det": "ADWINAccuracy", "N": 7 if q else 8,
+                       {"det": "ADWINAccuracy", "N": 7 if (q or mb == 2) else 8,  # N=8 with max_buckets=2 exceeds 200k paths
                         "cfg": {"max_buckets": mb, "new_sample_thresh": 1, "window_size_thresh": 0,
                                 "subwindow_size_thresh": 1}},
                        expect=("after-drift", "state-drift"),
-                       opts={} if q or mb == 1 else {"wall_budget_s": 2400}))  # N=8, max_buckets=2: about 200k paths
+                       ))
     for burn in (0, 1, 2):
         for sub in (1, 2):
             n = 3 if q else 4
